@@ -125,7 +125,17 @@ impl BitAnd for Verification {
 }
 
 #[derive(Debug, Clone, Copy, Serialize, Deserialize, Eq, Ord, PartialEq, PartialOrd)]
+#[serde(try_from = "u64")]
 struct Balance(u64);
+
+impl TryFrom<u64> for Balance {
+    type Error = Error;
+
+    /// During deserialization verify that the balance does not exceed `i64::MAX`.
+    fn try_from(value: u64) -> Result<Self, Self::Error> {
+        Self::try_new(value)
+    }
+}
 
 impl Balance {
     fn try_new(value: u64) -> Result<Self, Error> {
